@@ -2,7 +2,7 @@
    Model: UV.C18.Model.script_run (cmds/script.c) over the reader model of C06. *)
 From Coq Require Import NArith List Bool.
 Import ListNotations.
-Require Import UV.C06.Model UV.C06.MergeProofs UV.C06.Proofs UV.C18.Model UV.C18.Proofs UV.C18.Filter UV.C18.FilterProofs UV.C18.MoreProofs UV.C18.ArgsProofs.
+Require Import UV.C06.Model UV.C06.MergeProofs UV.C06.Proofs UV.C18.Model UV.C18.Proofs UV.C18.Filter UV.C18.FilterProofs UV.C18.MoreProofs UV.C18.ArgsProofs UV.C18.DefsProofs.
 Require UV.Mcount.Model UV.Mcount.Forest UV.Mcount.ScriptCb.
 Local Open Scope N_scope.
 
@@ -133,3 +133,39 @@ Theorem C18_args_checker_exact : forall script_cbs replay_cbs,
   exists inner, script_cbs = CBegin :: inner ++ [CEnd] /\ forallb inner_ok inner = true /\ map fmt_cb inner = replay_cbs.
 Proof. exact args_checker_exact. Qed.
 Print Assumptions C18_args_checker_exact.
+
+(* a script may define any subset of uftrace_begin / uftrace_entry / uftrace_exit / uftrace_end (a binding answers -1 for an
+   absent callback and the read loop goes on): for EVERY subset d, UFTRACE_FUNCS list and --tid selection, each defined
+   callback receives exactly the projection of what `replay --no-merge` shows on its record type - in replay's order, with
+   replay's fields - between begin and end where those are defined *)
+Theorem C18_defined_callbacks : forall d forks funcs sel tasks,
+  script_run_defs d forks funcs sel tasks =
+  (if d_begin d then [CBegin] else []) ++
+  map cb_of_event (filter (fun e => match_funcs funcs (e_name e) && ev_defined d e)
+                          (events_of (fst (replay_raw (mkcfg false forks) sel tasks)))) ++
+  (if d_end d then [CEnd] else []).
+Proof. exact script_defs_same_calls. Qed.
+Print Assumptions C18_defined_callbacks.
+
+Theorem C18_defined_callbacks_projection : forall d forks funcs sel tasks,
+  script_run_defs d forks funcs sel tasks = filter (cb_defined d) (script_run forks funcs sel tasks).
+Proof. exact script_defs_filter. Qed.
+Print Assumptions C18_defined_callbacks_projection.
+
+Theorem C18_all_defined : forall forks funcs sel tasks,
+  script_run_defs d_all forks funcs sel tasks = script_run forks funcs sel tasks.
+Proof. exact script_defs_all. Qed.
+Print Assumptions C18_all_defined.
+
+(* the driver that ends the read loop at the first absent callback loses calls (a script with uftrace_entry only) *)
+Theorem C18_stop_on_absent_refuted :
+  let d := mkdefs true true false true in
+  script_run_defs_gen true d [] [] None stop_witness <> filter (cb_defined d) (script_run [] [] None stop_witness) /\
+  script_run_defs d [] [] None stop_witness = [CBegin; CEntry 0%nat 0 1000 1 1; CEntry 0%nat 0 1005 2 2; CEnd].
+Proof. exact stop_on_absent_refuted. Qed.
+Print Assumptions C18_stop_on_absent_refuted.
+
+(* the tie's checker for a subset of callbacks is the plain checker when everything is defined *)
+Theorem C18_checker_all_defined : forall funcs cbs lines, ok_script_d d_all funcs cbs lines = ok_script funcs cbs lines.
+Proof. exact ok_script_d_all. Qed.
+Print Assumptions C18_checker_all_defined.
